@@ -38,7 +38,8 @@ from mc.core import Result
 ID = "C10"
 TECHNIQUE = ("exhaustive enumeration of all discrete auxiliary-field paths (one forced walker per leaf + boundary "
              "probes per node) with exact path weights against a NumPy/Fock-space reference; all spin-orbital pairs "
-             "x constant alphabet for the fast updates")
+             "x constant alphabet for the fast updates; histories (all orders) of propagator objects that differ in one "
+             "structural attribute through one process' jit cache")
 TOL = 1e-9
 DELTA = 1e-8          # half width of the probability probes
 THR_LO, THR_HI = 1e-8, 100.0
@@ -134,6 +135,14 @@ def lattice(name):
         lat = lattices.one_dimensional_chain(int(name[5:]))
     elif name == "grid2x2":
         lat = lattices.two_dimensional_grid(2, 2)
+    elif name[0] == "b" and ":" in name:
+        # explicit neighbour list 'b<n>:ij,kl,...' kept in the given order and orientation; K = -adjacency of that graph
+        n = int(name[1:name.index(":")])
+        bonds = tuple((int(q[0]), int(q[1])) for q in name.split(":")[1].split(","))
+        K = np.zeros((n, n))
+        for (i, j) in bonds:
+            K[i, j] = K[j, i] = -1.0
+        return K, bonds
     elif name == "ring4diag":
         # 4-site ring plus one diagonal: 5 bonds on 4 sites (more bonds than sites, as on every 2-D lattice beyond 2x2)
         K, bonds = lattice("chain4")
@@ -629,8 +638,13 @@ def run_population(case):
         bits, depth, sign = subtree_spec(T, int(case["subtree"]))
     else:
         bits, depth, sign = tree_spec(T, bool(case.get("probes", True)))
+    L = int((depth == -1).sum())         # leaves come first
+    pad = int(case.get("pad", 0))
+    if pad:  # copies of leaf 0 (depth -2: neither leaf nor probe) that only make n_walkers - a static jit attribute - unique
+        bits = np.concatenate([bits, np.repeat(bits[:1], pad, axis=0)])
+        depth = np.concatenate([depth, np.full(pad, -2)])
+        sign = np.concatenate([sign, np.zeros(pad, dtype=int)])
     W = bits.shape[0]
-    L = int((depth < 0).sum())           # leaves come first
     complete = L == 2 ** T
     shift = float(case["shift"])
     viol = []
@@ -975,6 +989,111 @@ def _root_cause(case, cache):
     return cache[key]
 
 
+# ------------------------------------------------------------------------------- history family
+# The propagators (and trials) are *static* jit arguments: the compiled program is looked up by their __hash__/__eq__ and
+# everything read from `self` while tracing (bond list, dt) is baked into it.  "The result of a call does not depend on
+# which objects were used before" is checked by running words over a menu of objects that agree in every scalar attribute
+# and array shape and differ in ONE structural attribute, all in one process with no cache clearing in between; every
+# word gets its own n_walkers (padding) so that it starts from a cache that has never seen its static key.
+MENUS = {
+    # neighbour lists on 3 sites / 2 bonds: different graph, same graph in another bond order, another orientation
+    "nn3": ["b3:01,12", "b3:12,01", "b3:02,12", "b3:10,21", "b3:01,02"],
+    # 4 sites / 4 bonds: ring, open chain + diagonal, open 2x2 grid
+    "nn4": ["b4:01,03,12,23", "b4:01,12,23,02", "b4:01,02,13,23"],
+    # time step of the on-site classes
+    "dt": [0.1, 0.03, 0.01],
+}
+HIST_SIG = "%s.propagate:result-depends-on-propagator-objects-used-before"
+
+
+def hist_words(menu, tier):
+    """quick: the two words (a,b,c), (c,b,a) over the first three letters - every ordered pair of them occurs as an
+    earlier/later pair; thorough: every ordered pair of distinct letters of the whole menu and every ordered triple of
+    the first three."""
+    import itertools as it
+
+    m = len(MENUS[menu])
+    if tier != "thorough":
+        k = min(m, 3)
+        return [tuple(range(k)), tuple(reversed(range(k)))]
+    return list(it.permutations(range(m), 2)) + list(it.permutations(range(min(m, 3)), 3))
+
+
+def _hist_case(cfg, letter, pad):
+    menu = cfg["menu"]
+    base = dict(fam="hist", menu=menu, n=cfg["n"], na=cfg["na"], nb=cfg["nb"], trial=cfg["trial"], seed=cfg["seed"],
+                prop=cfg["prop"], U=4.0, u1=1.0, density="nonuniform", walker="near", mode="library", field="none",
+                shift=0.37, pad=pad, probes=False)
+    if cfg.get("subtree"):
+        base["subtree"] = cfg["subtree"]
+    if menu == "dt":
+        return dict(base, lat="chain%d" % cfg["n"], dt=MENUS[menu][letter])
+    return dict(base, lat=MENUS[menu][letter], dt=0.1)
+
+
+def run_word(cfg, word, pad):
+    """The calls of one word, in order, in this process.  Returns [(position, case, out)]."""
+    outs = []
+    for k, letter in enumerate(word):
+        case = dict(_hist_case(cfg, letter, pad), word=[int(x) for x in word], pos=k)
+        outs.append((k, case, run_population(case)))
+    return outs
+
+
+def job_hist(cfg):
+    try:
+        return _job_hist(cfg)
+    finally:
+        _restore_random()
+
+
+def _job_hist(cfg):
+    res = Result()
+    for word, pad in cfg["words"]:
+        for k, case, out in run_word(cfg, word, pad):
+            info = out["info"]
+            res.add(states=info["L"], transitions=info["L"], evaluations=3 * info["L"], traces=info["L"])
+            res.guard("history_calls[%s]" % cfg["menu"], 1)
+            res.guard("history_calls_after_another_object[%s]" % cfg["menu"], int(k > 0))
+            if info["identity_evaluated"]:
+                res.guard("history_identity_evaluated", 1)
+            for sig, det in out["viol"]:
+                if k > 0:
+                    # same object, same inputs, but under a static key (n_walkers) this process has never compiled
+                    alone = run_population(dict(case, pad=100000 + 10 * case["pad"] + k))
+                    if not alone["viol"]:
+                        det = dict(det, observed_as=sig, word=case["word"], position=k,
+                                   objects=[MENUS[cfg["menu"]][x] for x in word],
+                                   note="the same call is correct under a fresh static key in the same process")
+                        sig = HIST_SIG % cfg["prop"]
+                res.violation(sig, case, det)
+        res.nontrivial((cfg["menu"], cfg["prop"], cfg["trial"], tuple(word)))
+    res.sample(dict(family="hist", menu=cfg["menu"], letters=MENUS[cfg["menu"]], prop=cfg["prop"], trial=cfg["trial"],
+                    words=[list(w) for w, _ in cfg["words"]]))
+    return res
+
+
+def hist_jobs(tier, seed):
+    thorough = tier == "thorough"
+    jobs = []
+    pad = 1000
+    plan = [("nn3", "propagator_cpmc_nn", 3, (2, 1), None), ("nn3", "propagator_cpmc_nn_slow", 3, (2, 1), None),
+            ("dt", "propagator_cpmc", 3, (2, 1), None), ("dt", "propagator_cpmc_slow", 3, (2, 1), None)]
+    if thorough:
+        plan += [("nn4", "propagator_cpmc_nn", 4, (2, 1), 8), ("nn4", "propagator_cpmc_nn_slow", 4, (2, 1), 8)]
+    for menu, pname, n, (na, nb), subtree in plan:
+        for kind in (("uhf_cpmc", "ghf_cpmc") if thorough else ("uhf_cpmc",)):
+            words = []
+            for w in hist_words(menu, tier):
+                pad += 1      # unique over the whole family: jobs may share a worker process
+                words.append((w, pad))
+            chunk = 4 if thorough else 1
+            for a in range(0, len(words), chunk):
+                jobs.append(("hist", dict(fam="hist", menu=menu, prop=pname, n=n, na=na, nb=nb, trial=kind, seed=seed,
+                                          subtree=subtree, words=words[a:a + chunk])))
+    return jobs
+
+
 # ------------------------------------------------------------------------------- fast update family
 _CONST = [-0.55, -0.2, 0.35, 1.2]
 
@@ -1217,6 +1336,8 @@ def job(j):
         return job_paths(cfg)
     if fam == "example":
         return job_example_route(cfg)
+    if fam == "hist":
+        return job_hist(cfg)
     raise ValueError(fam)
 
 
@@ -1224,6 +1345,8 @@ def _cost(j):
     fam, cfg = j
     if fam == "example":
         return -100
+    if fam == "hist":
+        return -45
     if fam == "paths" and cfg["fam"] == "nn":
         return -(50 + 10 * cfg["n"])
     if fam == "paths":
@@ -1241,7 +1364,16 @@ def run(ctx):
                 "all executed in one population through prop.propagate (neighbour family: complete trees on chain2 = 1 bond / 2 sites and the "
                 "3-ring = 3 bonds / 3 sites; on ring+diagonal = 5 bonds / 4 sites a bounded sub-tree: 3 forced prefixes x all 2^8 (2^10 "
                 "thorough) patterns of the last decisions, leaves only, no summed identity); non-trivial & distinct = distinct non-zero leaf "
-                "probabilities of the configurations on which the summed identity was evaluated")
+                "probabilities of the configurations on which the summed identity was evaluated.  hist: words over a menu of "
+                "propagator objects equal in every scalar attribute and array shape but one structural (static-jit) attribute - "
+                "neighbour lists on 3 sites/2 bonds (other graph, other bond order, other orientation; 4 sites/4 bonds ring / "
+                "chain+diagonal / open 2x2 in thorough) for propagator_cpmc_nn(_slow), dt in {0.1,0.03,0.01} for "
+                "propagator_cpmc(_slow) - executed in order in ONE process without any cache clearing, each word under an "
+                "n_walkers no earlier call used, every call compared with the same references (quick: words abc, cba = all "
+                "ordered pairs of 3 letters; thorough: all ordered pairs and triples); a state is one leaf of one call of one word")
+    ctx.assume("history layer: the trial classes uhf_cpmc/ghf_cpmc have no attribute that changes the result at equal array shapes "
+               "(norb/nelec change shapes; n_batch/n_opt_iter do not enter the CPMC paths), and n_exp_terms/n_batch of the propagators "
+               "are not read by the CPMC classes, so only neighbour lists and dt are letters")
     ctx.assume("trial orbitals and walkers real (propagator_cpmc.init_prop_data takes the real part); hopping t=1; the Fock-space "
                "reference mc/fock.py (self-tested) and NumPy determinants are the trusted base")
     ctx.assume("selection probabilities are pinned to the reference within +-1e-8 by boundary probes; thresholds (ratio<1e-8, "
@@ -1249,7 +1381,7 @@ def run(ctx):
                "threshold are skipped and counted")
     ctx.assume("walkers whose history has probability zero (both fields rejected, or a rejected field forced by u=0/1 exactly) divide by "
                "a zero cached overlap afterwards; that is property C09 (finding F9) and they are skipped here (counted)")
-    jobs = make_jobs(ctx.tier, ctx.seed)
+    jobs = make_jobs(ctx.tier, ctx.seed) + hist_jobs(ctx.tier, ctx.seed)
     jobs.append(("example", dict(cells=[("chain2", (1, 1), 4.0), ("chain3", (2, 1), 8.0)] + ([("grid2x2", (2, 2), 1.0)] if ctx.thorough else []))))
     jobs.sort(key=_cost)
     # Workers finish in arbitrary order; collect their violations and enter them simplest-first (smallest lattice,
@@ -1268,7 +1400,7 @@ def run(ctx):
         ctx.pmap(job, jobs)
     finally:
         ctx.merge = plain_merge
-    fam_rank = {"fast": 0, "tree": 1, "nn": 2}
+    fam_rank = {"fast": 0, "tree": 1, "nn": 2, "hist": 3}
 
     def simplicity(iv):
         i, v = iv
@@ -1284,6 +1416,7 @@ def run(ctx):
                       "identity_evaluated[library,spin-dependent one-body staggered]",
                       "identity_evaluated[library,spin-dependent one-body edge]",
                       "pair_constant_cases[same-spin]", "pair_constant_cases[opposite-spin]", "fast_vs_slow_walkers_compared", "bounded_subtree_leaves",
+                      "history_calls_after_another_object[nn3]", "history_calls_after_another_object[dt]", "history_identity_evaluated",
                       "example_route_cells", "walkers_with_constraint_active")
 
 
@@ -1300,6 +1433,16 @@ def _replay(case):
     for k in ("n", "na", "nb", "seed"):
         case[k] = int(case[k])
     fam = case.get("fam")
+    if fam == "hist":
+        # re-execute the whole word up to the recorded position, in order, under its own static key
+        cfg = dict(menu=case["menu"], n=case["n"], na=case["na"], nb=case["nb"], trial=case["trial"], seed=case["seed"],
+                   prop=case["prop"], subtree=case.get("subtree"))
+        word = [int(x) for x in np.asarray(case["word"]).tolist()]
+        outs = run_word(cfg, word[: int(case["pos"]) + 1], int(case["pad"]))
+        k, c, out = outs[-1]
+        sigs = [sg for sg, _ in out["viol"]]
+        return (len(sigs) > 0, dict(word=word, position=k, earlier_calls_ok=[not o["viol"] for _, _, o in outs[:-1]],
+                                    signatures=sigs, first=out["viol"][0][1] if sigs else None))
     if fam == "fast":
         r = Result()
         only = None
